@@ -1251,6 +1251,7 @@ func (x *Exec) checkInvs(ls *LoopSpec, st *State, kind string, ord int, pos toke
 						x.c.assume(ls.headState.pc, henv.evalBool(q.Body))
 					}()
 				}
+				x.traceFrame(ls, st, bound, kind, fmt.Sprintf(":L%d#%d%s", ord, k+1, x.pathTag), pos)
 				o := x.c.oblige(kind, fmt.Sprintf(":L%d#%d%s", ord, k+1, x.pathTag), st.pc, goal, pos, inv.Text)
 				o.Split = cases
 				continue
@@ -1273,6 +1274,48 @@ func (x *Exec) checkInvs(ls *LoopSpec, st *State, kind string, ord int, pos toke
 	}
 	if y, ok := st.ghost["stopped"]; ok && x.contract != nil && x.contract.Yields != "" {
 		x.c.oblige(kind, fmt.Sprintf(":L%d#live%s", ord, x.pathTag), st.pc, tNot(y.(Sc).T), pos, "!stopped (automatic for iterator bodies)")
+	}
+}
+
+// traceFrame: the items of the trace Y yielded before this iteration are unchanged by it (Y is only appended to). The
+// equalities Y'[sk] == Y[sk] for the skolem constants of a split invariant are emitted as an obligation of their own
+// (pure array reasoning) and then made available to the main obligation, whose quantified hypotheses are triggered by
+// terms over the OLD arrays: e-matching does not see through the store() terms of the new trace.
+func (x *Exec) traceFrame(ls *LoopSpec, st *State, bound map[string]Sc, kind, suffix string, pos token.Pos) {
+	if ls.headState == nil {
+		return
+	}
+	hy, ok1 := ls.headState.ghost["Y"].(Sl)
+	by, ok2 := st.ghost["Y"].(Sl)
+	if !ok1 || !ok2 {
+		return
+	}
+	la, lb := leaves(hy.Arr), leaves(by.Arr)
+	if len(la) != len(lb) {
+		return
+	}
+	var names []string
+	for n := range bound {
+		names = append(names, n)
+	}
+	sort.Strings(names)
+	for _, n := range names {
+		sk := bound[n]
+		if sk.S != SInt {
+			continue
+		}
+		var eqs []string
+		for i := range la {
+			if la[i] != lb[i] {
+				eqs = append(eqs, tEq(tSel(lb[i], sk.T), tSel(la[i], sk.T)))
+			}
+		}
+		if len(eqs) == 0 {
+			continue
+		}
+		f := tImp(tAnd(tLe("0", sk.T), tLt(sk.T, hy.Len)), tAnd(eqs...))
+		x.c.oblige("frame", ":Y@"+kind+suffix+"."+n, st.pc, f, pos, "items of the trace yielded before this iteration are unchanged (instance at the skolem constant)")
+		x.c.assume(st.pc, f)
 	}
 }
 
